@@ -64,6 +64,9 @@ def oracle_ledgers(h):
                 if not uncapped and (amt % tptb != 0 or amt < tptb * V(vb, 'nrWinning')[0]):
                     out.append(viol('C02', i, 'deposit_cover', 'deposit of %d accepted, does not cover %d x %d winners' % (amt, tptb, V(vb, 'nrWinning')[0])))
                 deposited_amt = amt
+                # the single deposit has no stage condition: made after the owner's withdrawal (only
+                # possible in a sale nobody could confirm in) it is surplus the owner may withdraw again
+                owner_paid = False
             else:
                 already = V(vb, 'deposited')[0] > 0 or deposited_amt is not None
                 if (uncapped and c.caller == OWNER and not already and len(c.pay) == 1 and c.pay[0] == (lp, 0, tptb * h.K)):
